@@ -53,3 +53,11 @@ Theorem C06_fit_minimises_weighted_squared_distances : forall l zero a b, (foral
   wls3 l = Some (zero, a, b) -> forall zero' a' b', cost2 zero a b l <= cost2 zero' a' b' l.
 Proof. exact wls3_minimises_weighted_squared_distances. Qed.
 Print Assumptions C06_fit_minimises_weighted_squared_distances.
+
+Import ListNotations.
+(* ---- non-vacuity: a concrete non-singular weighted fit (computed inside Coq) ---- *)
+Example nv_wls_col_some :
+  match wls_col [ {| w := 1; ri := 0; rj := 0; rp := 10 |}; {| w := 2; ri := 1; rj := 0; rp := 30 |};
+                  {| w := 1; ri := 0; rj := 1; rp := 11 |}; {| w := 3#2; ri := 1; rj := 1; rp := 32 |} ] with
+  | Some (x0, x1, x2) => 0 < x1 | None => False end.
+Proof. vm_compute. reflexivity. Qed.
